@@ -81,8 +81,14 @@ def run(pid, rep, n_cases, plies):
     cases = gen_cases(rep.seed, pid, n_cases, plies)
     corpus = load_corpus(pid)
     cases = corpus + cases
-    rust, rcrash = core.run_rust(cases)
+    # *.implcase files: long cases run on the implementation only (the property is decided on them; the model would
+    # spend a minute replaying 400 plies of move generation)
+    impl_only = load_corpus(pid, ext="implcase")
+    rust, rcrash = core.run_rust(cases + impl_only)
     lean, lcrash = core.run_lean(cases)
+    lean = lean + [[None] * len(c) for c in impl_only]
+    n_model = len(cases)
+    cases = cases + impl_only
     stats = Counter()
     kinds = Counter()
     if rcrash:
@@ -92,7 +98,7 @@ def run(pid, rep, n_cases, plies):
 
     # ---- correspondence (model vs implementation), through the property's projection
     corr_fail = []
-    for ci, case in enumerate(cases):
+    for ci, case in enumerate(cases[:n_model]):
         for oi, op in enumerate(case):
             ra, la = rust[ci][oi], lean[ci][oi]
             if pid not in ("C02", "C03") and op == "obs" and ra and la and "|" in ra[0] and "|" in la[0] \
@@ -205,10 +211,10 @@ def reimport_check(rep, cases, rust, stats):
                           f"exported hash {h} moves {ml[:60]}; re-imported {o[1]} {str(o[2])[:80]}", replay_ops=["new " + f, "obs", "moves c"])
 
 
-def load_corpus(pid):
+def load_corpus(pid, ext="case"):
     import glob, os
     out = []
-    for p in sorted(glob.glob(os.path.join(core.VERIF, "corpus", pid, "*.case"))) + sorted(glob.glob(os.path.join(core.VERIF, "corpus", "shared", "*.case"))):
+    for p in sorted(glob.glob(os.path.join(core.VERIF, "corpus", pid, "*." + ext))) + sorted(glob.glob(os.path.join(core.VERIF, "corpus", "shared", "*." + ext))):
         ops = [l.rstrip("\n") for l in open(p, encoding="utf-8") if l.strip() and not l.startswith("#")]
         if ops:
             out.append(ops)
